@@ -16,6 +16,7 @@ import os
 import random
 from decimal import Decimal
 from fractions import Fraction
+from pathlib import PurePosixPath
 
 import attr
 import attrs
@@ -38,8 +39,11 @@ RULE = ("(1) converter trees: every tree of depth <= 1 over 13 leaf kinds (plain
         "frozen, value passed / class default / Factory default, list-converter spelling, on_setattr at "
         "class or field level, direct setters.convert call); the result is compared as a symbolic term "
         "together with the factory call counter.  (2) to_bool: every letter-case of every documented "
-        "string spelling, near-miss and random ASCII strings, a heterogeneous pool of non-strings and "
-        "non-ASCII strings (== against the listed elements is the oracle), and the two tuples extracted "
+        "string spelling, near-miss and random ASCII strings, a heterogeneous pool of non-strings (incl. "
+        "objects whose str()/repr() is a listed spelling: paths, exceptions, custom __str__, bytes, "
+        "Decimal, Fraction; and numeric == matches) and non-ASCII strings (== against the listed "
+        "elements is the oracle), every input also through optional(pipe(to_bool)) in __init__ and on "
+        "assignment, and the two tuples extracted "
         "from the source with ast.  (3) filters: what-subsets of a 13-item universe (types incl. "
         "bool/int and a subclass pair, names, equal-but-distinct and same-name-different Attributes, "
         "junk) - all subsets in the thorough tier, all of size <= 2 plus random ones in quick - each "
@@ -550,6 +554,38 @@ class HasLower:
         return "yes"
 
 
+class StrIs:
+    """A non-str object whose str() (and optionally repr()/format()) is a listed spelling."""
+    def __init__(self, text, also_repr=False):
+        self.text, self.also_repr = text, also_repr
+
+    def __str__(self):
+        return self.text
+
+    def __format__(self, spec):
+        return self.text
+
+    def __repr__(self):
+        return self.text if self.also_repr else "StrIs(%r)" % self.text
+
+
+class ListStr(list):
+    def __str__(self):
+        return "yes"
+
+
+class IntLike:
+    """Converts to 1 but is not equal to it."""
+    def __int__(self):
+        return 1
+
+    def __index__(self):
+        return 1
+
+    def __bool__(self):
+        return True
+
+
 import enum  # noqa: E402
 
 
@@ -570,6 +606,21 @@ def other_pool():
         "object()": object(), "EqAll()": EqAll(), "NeverEq()": NeverEq(), "EqOnly('yes')": EqOnly("yes"),
         "EqOnly(0,'off')": EqOnly(0, "off"), "EqOnly(True,False)": EqOnly(True, False),
         "EqOnly('YES')": EqOnly("YES"), "EqOnly(1)": EqOnly(1), "EqOnly('n')": EqOnly("n"),
+        # non-str values whose str() lower-cased is a listed spelling: ValueError unless == a listed element
+        "PurePosixPath('on')": PurePosixPath("on"), "PurePosixPath('TRUE')": PurePosixPath("TRUE"),
+        "PurePosixPath('0')": PurePosixPath("0"), "KeyError(1)": KeyError(1), "KeyError(0)": KeyError(0),
+        "ValueError('false')": ValueError("false"), "Exception('Yes')": Exception("Yes"),
+        "StrIs('yes')": StrIs("yes"), "StrIs('TRUE')": StrIs("TRUE"), "StrIs('0')": StrIs("0"),
+        "StrIs('off')": StrIs("off"), "StrIs('1')": StrIs("1"), "StrIs('n',repr)": StrIs("n", True),
+        "StrIs('on',repr)": StrIs("on", True), "StrIs('False',repr)": StrIs("False", True),
+        "StrIs('nope')": StrIs("nope"), "ListStr()": ListStr(), "IntLike()": IntLike(),
+        "Decimal('1')": Decimal("1"), "Decimal('0')": Decimal("0"), "Decimal('1.0')": Decimal("1.0"),
+        "Decimal('0E+3')": Decimal("0E+3"), "Fraction(2,2)": Fraction(2, 2), "Fraction(1,2)": Fraction(1, 2),
+        "b'on'": b"on", "b'0'": b"0", "b'y'": b"y", "bytearray(b'1')": bytearray(b"1"),
+        "memoryview(b'1')": memoryview(b"1"), "['1']": ["1"], "('y',)": ("y",), "{'on'}": {"on"},
+        "{'t':1}": {"t": 1}, "range(1)": range(1), "type(True)": bool, "str": str, "len": len,
+        "1e0": 1e0, "True+0": True + 0, "0*1.5": 0 * 1.5, "1.0000000000000002": 1.0000000000000002,
+        "2**53+1": 2 ** 53 + 1, "-0": -0, "complex(0,0)": complex(0, 0), "complex(1,1)": complex(1, 1),
         "HasLower()": HasLower(), "IE.ONE": IE.ONE, "IE.ZERO": IE.ZERO, "IE.TWO": IE.TWO,
         "StrSub('YES')": StrSub("YES"), "StrSub('nope')": StrSub("nope"), "StrSub('oFf')": StrSub("oFf"),
         # non-ASCII strings: lower-cased by Python, then compared with the listed elements
@@ -591,9 +642,9 @@ def tb_classify(x):
     return "(TOther %s)" % lst(enc_elt(e) for e in eqs)
 
 
-def tb_observe(x):
+def _tb_outcome(fn):
     try:
-        r = converters.to_bool(x)
+        r = fn()
     except ValueError:
         return "BValueError", "ValueError"
     except Exception as e:  # noqa: BLE001
@@ -603,6 +654,37 @@ def tb_observe(x):
     if r is False:
         return "(BOk false)", "False"
     return "BOtherOutcome", repr(r)
+
+
+_TB_CLS = []
+
+
+def _tb_cls():
+    if not _TB_CLS:
+        @attr.s(on_setattr=setters.convert)
+        class TB:
+            x = attr.ib(default="1", converter=converters.optional(converters.pipe(converters.to_bool)))
+        _TB_CLS.append(TB)
+    return _TB_CLS[0]
+
+
+def tb_observe(x):
+    """to_bool(x) called directly and - for x other than None - as optional(pipe(to_bool)) in a
+    generated __init__ and on assignment; the three must agree, else the case cannot match."""
+    direct = _tb_outcome(lambda: converters.to_bool(x))
+    if x is None:
+        return direct
+    TB = _tb_cls()
+    inst = TB()
+
+    def assign():
+        inst.x = x
+        return inst.x
+    via_init = _tb_outcome(lambda: TB(x).x)
+    via_assign = _tb_outcome(assign)
+    if via_init[0] != direct[0] or via_assign[0] != direct[0]:
+        return "BOtherOutcome", "direct %s / __init__ %s / assignment %s" % (direct[1], via_init[1], via_assign[1])
+    return direct
 
 
 def mk_tb_case(inp):
@@ -615,13 +697,22 @@ def mk_tb_case(inp):
     return Case(term, inp, sj, sig={"part": "to_bool"}, nontrivial=True, key=term)
 
 
+class ExtractUnavailable(Exception):
+    """to_bool no longer has the `val in (<literals>)` shape: the static tie is unavailable (the
+    behavioural to_bool cases remain the authority; this must never pre-empt them)."""
+
+
+_notes = {}
+
+
 def extract_tuples():
-    """Fail-closed ast extraction of the two tuples of to_bool from the checked source."""
+    """ast extraction of the two tuples of to_bool from the checked source.  Raises
+    ExtractUnavailable when the source has another shape."""
     path = os.path.join(vlib.REPO, "src", "attr", "converters.py")
     tree = ast.parse(open(path).read())
     fn = [n for n in ast.walk(tree) if isinstance(n, ast.FunctionDef) and n.name == "to_bool"]
     if len(fn) != 1:
-        raise vlib.Infra("cannot find exactly one to_bool in %s" % path)
+        raise ExtractUnavailable("cannot find exactly one to_bool in %s" % path)
     found = {}
     for node in ast.walk(fn[0]):
         if not isinstance(node, ast.If):
@@ -633,24 +724,32 @@ def extract_tuples():
         if not (len(node.body) == 1 and isinstance(node.body[0], ast.Return)
                 and isinstance(node.body[0].value, ast.Constant)
                 and isinstance(node.body[0].value.value, bool)):
-            raise vlib.Infra("to_bool: membership test whose body is not `return True/False`")
+            raise ExtractUnavailable("to_bool: membership test whose body is not `return True/False`")
         elts = []
         for e in t.comparators[0].elts:
             if not isinstance(e, ast.Constant) or not isinstance(e.value, (bool, str, int)):
-                raise vlib.Infra("to_bool: tuple element that is not a bool/str/int literal")
+                raise ExtractUnavailable("to_bool: tuple element that is not a bool/str/int literal")
             elts.append(e.value)
         key = node.body[0].value.value
         if key in found:
-            raise vlib.Infra("to_bool: two membership tests return %r" % key)
+            raise ExtractUnavailable("to_bool: two membership tests return %r" % key)
         found[key] = elts
     if set(found) != {True, False}:
-        raise vlib.Infra("to_bool: expected one truthy and one falsy membership test in %s, found %r"
+        raise ExtractUnavailable("to_bool: expected one truthy and one falsy membership test in %s, found %r"
                          % (path, sorted(found)))
     return found[True], found[False]
 
 
-def mk_consts_case(inp):
-    t, f = extract_tuples()
+def mk_consts_case(inp, replay=False):
+    try:
+        t, f = extract_tuples()
+    except ExtractUnavailable as e:
+        if replay:
+            raise vlib.Infra("cannot replay the constants case: %s" % e)
+        _notes["to_bool_constants_extracted"] = False
+        _notes["to_bool_constants_note"] = ("static tie skipped, behavioural to_bool cases only: %s" % e)
+        return None
+    _notes["to_bool_constants_extracted"] = True
     term = "(KConsts %s %s)" % (lst(enc_elt(e) for e in t), lst(enc_elt(e) for e in f))
     return Case(term, inp, {"truthy": [repr(e) for e in t], "falsy": [repr(e) for e in f]},
                 sig={"part": "to_bool_consts"}, nontrivial=True, key=term)
@@ -669,7 +768,10 @@ NEAR_MISS = ["", " ", "tru", "truee", " true", "true ", "yess", "ye", "2", "-1",
 
 
 def gen_tobool(tier, rng):
-    cases = [mk_consts_case({"part": "consts"})]
+    cases = []
+    cc = mk_consts_case({"part": "consts"})
+    if cc is not None:
+        cases.append(cc)
     for s in DOC_ALL:
         if isinstance(s, str):
             for v in all_cases_of(s):
@@ -988,12 +1090,16 @@ def rerun(inp):
     if part == "tobool":
         return mk_tb_case(inp)
     if part == "consts":
-        return mk_consts_case(inp)
+        return mk_consts_case(inp, replay=True)
     if part == "filter":
         return mk_filter_case(inp)
     if part == "cmp":
         return mk_cmp_case(inp)
     raise vlib.Infra("unknown case kind %r" % part)
+
+
+def extra(tier, seed):
+    return [], dict(_notes, runtime_observations=0)
 
 
 def corpus():
